@@ -11,6 +11,7 @@ import (
 
 func init() {
 	VerifHarnesses["H_C05_iface_doc"] = H_C05_iface_doc
+	VerifHarnesses["H_C05_literals"] = H_C05_literals
 }
 
 // vEndOK mirrors json.validateEndBuf: only whitespace up to the NUL sentinel.
@@ -55,6 +56,28 @@ func H_C05_iface_doc(t *verifrt.T) {
 	var v interface{}
 	ctx := &RuntimeContext{Buf: buf, Option: &Option{}}
 	cur, err := d.Decode(ctx, 0, 0, unsafe.Pointer(&v))
+	accepted := err == nil && vEndOK(buf, cur)
+	t.ObserveBool("accepted", accepted)
+	c05Verdicts(t, doc, accepted)
+}
+
+// literal family: documents of N bytes whose first byte is t, f or n (optionally
+// inside an array), all other bytes free: every truncation and corruption of
+// true / false / null.
+func H_C05_literals(t *verifrt.T) {
+	n := t.Param("N")
+	buf, alias := docWithNul(t, "doc", n)
+	first := 0
+	if t.Choice("in-array", 2) == 1 {
+		t.Assume(alias[0] == '[')
+		first = 1
+	}
+	t.Assume(verifrt.Or(alias[first] == 't', alias[first] == 'f', alias[first] == 'n'))
+	doc := make([]byte, n)
+	copy(doc, alias)
+	d := NewPathDecoder()
+	var v interface{}
+	cur, err := d.Decode(&RuntimeContext{Buf: buf, Option: &Option{}}, 0, 0, unsafe.Pointer(&v))
 	accepted := err == nil && vEndOK(buf, cur)
 	t.ObserveBool("accepted", accepted)
 	c05Verdicts(t, doc, accepted)
